@@ -9,30 +9,16 @@
                  model's algorithm (stores, counting cache, registries) is not consulted. *)
 From Coq Require Import List Arith Bool.
 Import ListNotations.
-From ZI Require Export Lib.Util Model.Ro Model.Adapter Model.Components Spec.Components.
+From ZI Require Export Lib.Util Model.Ro Model.Adapter Model.Lookup Model.RegSys Model.Components
+  Model.ComponentsSys Spec.Components.
 
-(* (this tie deliberately depends only on Model/Ro.v and Model/Adapter.v of the shared registry
-   models; the few helpers it shares with Tie/RegCommon.v and Model/RegSys.v are repeated here) *)
+(* (of Model/RegSys.v only [fresh_ro], the resolution order of a __bases__ graph, is used) *)
 
 (* the world of a case: spec i has bases (nth i g) and is an interface iff (nth i ifaces) *)
 Definition mk_world (g : graph) (ifaces : list bool) : world :=
   let n := length g in
   let tbl := map (fun x => fresh_sro (S n) 0 g x) (seq 0 n) in
   mkW (fun x => nth x tbl []) (fun x => nth x ifaces false).
-
-Fixpoint lex_leb (a b : list nat) : bool :=
-  match a, b with
-  | [], _ => true
-  | _ :: _, [] => false
-  | x :: a', y :: b' => if Nat.ltb x y then true else if Nat.ltb y x then false else lex_leb a' b'
-  end.
-Fixpoint ins_sorted {A} (x : list nat * A) (l : list (list nat * A)) : list (list nat * A) :=
-  match l with
-  | [] => [x]
-  | y :: l' => if lex_leb (fst y) (fst x) then y :: ins_sorted x l' else x :: l
-  end.
-Definition sort_by_key {A} (l : list (list nat * A)) : list (list nat * A) :=
-  fold_left (fun acc x => ins_sorted x acc) l [].
 
 (* what a component returns when called (mirrors c16_driver.oracle_call) *)
 Definition call16 (v : value) (os : list nat) : option nat :=
@@ -53,15 +39,17 @@ Inductive cq :=
 
 Record sobs := mkObs {
   s_exc : bool;        (* an unexpected exception / malformed record was seen at this step *)
+  s_on : nat;          (* the object whose listings / probe are reported (the one acted upon) *)
   s_ret : ret;
   s_events : list event;
   s_lu : list regrec; s_la : list regrec; s_ls : list regrec; s_lh : list regrec;
   s_probe : nat * nat * nat * nat;
-  s_queries : list cq
+  s_queries : list (nat * cq)          (* (object asked, query with its answer) *)
 }.
 
-(* graph, interface flags, unhashable component identities, history with observations *)
-Definition case_t := (graph * list bool * list nat * list (cop * sobs))%type.
+(* graph, interface flags, unhashable component identities, history with observations.  A
+   history starts with object 0 (no bases); SNew adds objects, SSetBases re-bases them. *)
+Definition case_t := (graph * list bool * list nat * list (sop * sobs))%type.
 
 Definition hashable_of (unh : list nat) (v : value) : bool := negb (mem (vid v) unh).
 
@@ -83,6 +71,7 @@ Definition ret_eqb (a b : ret) : bool :=
   match a, b with
   | RNone, RNone => true | RTypeError, RTypeError => true
   | RBool x, RBool y => Bool.eqb x y
+  | RDict (a1, a2, a3, a4), RDict (b1, b2, b3, b4) => Nat.eqb a1 b1 && Nat.eqb a2 b2 && Nat.eqb a3 b3 && Nat.eqb a4 b4
   | _, _ => false
   end.
 Definition event_eqb (a b : event) : bool := list_eqb Nat.eqb (enc_ev a) (enc_ev b).
@@ -94,23 +83,24 @@ Definition pairs_eqb (a b : list (nat * nat)) : bool :=
 Definition sort_pairs (l : list (nat * nat)) : list (nat * nat) :=
   map (fun kv => (hd 0 (fst kv), snd kv)) (sort_by_key (map (fun nv => ([fst nv], snd nv)) l)).
 
-(* ---- the model's answer to a query, as a [cq] with the model's answer filled in *)
 Section Answers.
   Variable W : world.
   Variable hashable : value -> bool.
 
-  Definition model_query (st : cstate) (q : cq) : cq :=
-    match q with
-    | QUtil p n _ => QUtil p n (option_map vid (queryUtility W st p n))
-    | QUtilsFor p _ => QUtilsFor p (sort_pairs (map (fun nv => (fst nv, vid (snd nv))) (getUtilitiesFor W st p)))
-    | QAllUtils p _ => QAllUtils p (map (fun v => (vid v, veq v)) (getAllUtilitiesRegisteredFor W st p))
-    | QAdapter o p n _ => QAdapter o p n (queryAdapter W call16 st o p n)
-    | QMulti os p n _ => QMulti os p n (queryMultiAdapter W call16 st os p n)
-    | QGetAdapters os p _ => QGetAdapters os p (sort_pairs (getAdapters W call16 st os p))
-    | QSubscribers os p _ _ =>
-        let '(res, called) := subscribersOf W call16 st os p in QSubscribers os p res (map vid called)
-    | QHandle os _ => QHandle os (map vid (handle W st os))
-    end.
+  (* ---- the model's answer to a query put to object r *)
+  Definition model_query (S : csys) (rq : nat * cq) : nat * cq :=
+    let r := fst rq in
+    (r, match snd rq with
+        | QUtil p n _ => QUtil p n (option_map vid (sys_queryUtility W S r p n))
+        | QUtilsFor p _ => QUtilsFor p (sort_pairs (map (fun nv => (fst nv, vid (snd nv))) (sys_getUtilitiesFor W S r p)))
+        | QAllUtils p _ => QAllUtils p (map (fun v => (vid v, veq v)) (sys_getAllUtilitiesRegisteredFor W S r p))
+        | QAdapter o p n _ => QAdapter o p n (sys_queryMultiAdapter W call16 S r [o] p n)
+        | QMulti os p n _ => QMulti os p n (sys_queryMultiAdapter W call16 S r os p n)
+        | QGetAdapters os p _ => QGetAdapters os p (sort_pairs (sys_getAdapters W call16 S r os p))
+        | QSubscribers os p _ _ =>
+            let '(res, called) := sys_subscribers W call16 S r os p in QSubscribers os p res (map vid called)
+        | QHandle os _ => QHandle os (map vid (sys_handle W S r os))
+        end).
 
   Definition cobj_eqb (a b : cobj) : bool := Nat.eqb (fst a) (fst b) && Nat.eqb (snd a) (snd b).
   Definition cq_eqb (a b : cq) : bool :=
@@ -126,17 +116,26 @@ Section Answers.
     | QHandle os c, QHandle os' c' => list_eqb cobj_eqb os os' && list_eqb Nat.eqb c c'
     | _, _ => false
     end.
+  Definition rq_eqb (a b : nat * cq) : bool := Nat.eqb (fst a) (fst b) && cq_eqb (snd a) (snd b).
 
   (* everything the model says about one step *)
-  Definition model_step (st : cstate) (o : cop) (ob : sobs) : cstate * sobs :=
-    let x := cstep W hashable st o in
-    let st' := st_of x in
-    (st', mkObs false (ret_of x) (evs_of x)
-                (registeredUtilities st') (registeredAdapters st')
-                (registeredSubscriptionAdapters st') (registeredHandlers st')
-                (probe st') (map (model_query st') (s_queries ob))).
+  Definition model_step (S : csys) (o : sop) (ob : sobs) : csys * sobs :=
+    let x := sys_step W hashable S o in
+    let S' := fst (fst x) in
+    let st' := comp S' (s_on ob) in
+    (S', mkObs false (s_on ob) (snd (fst x)) (snd x)
+               (registeredUtilities st') (registeredAdapters st')
+               (registeredSubscriptionAdapters st') (registeredHandlers st')
+               (probe st') (map (model_query S') (s_queries ob))).
 
   Definition llnat_eq := list_eqb (list_eqb Nat.eqb).
+
+  (* the object reported must be the one acted upon (the new one for SNew) *)
+  Definition on_ok (n : nat) (o : sop) (ob : sobs) : bool :=
+    match o with
+    | SNew _ => Nat.eqb (s_on ob) n
+    | SSetBases r _ | SOp r _ | STamper r _ | SRebuild r => Nat.eqb (s_on ob) r
+    end.
 
   Definition sobs_agree (m ob : sobs) : bool :=
     negb (s_exc ob) && ret_eqb (s_ret m) (s_ret ob)
@@ -144,67 +143,94 @@ Section Answers.
     && llnat_eq (canon (s_lu m)) (canon (s_lu ob)) && llnat_eq (canon (s_la m)) (canon (s_la ob))
     && llnat_eq (canon (s_ls m)) (canon (s_ls ob)) && llnat_eq (canon (s_lh m)) (canon (s_lh ob))
     && probe_eqb (s_probe m) (s_probe ob)
-    && list_eqb cq_eqb (s_queries m) (s_queries ob).
+    && list_eqb rq_eqb (s_queries m) (s_queries ob).
 
-  Fixpoint run_model (st : cstate) (h : list (cop * sobs)) : list sobs :=
+  Fixpoint run_model (S : csys) (h : list (sop * sobs)) : list sobs :=
     match h with
     | [] => []
-    | (o, ob) :: h' => let '(st', m) := model_step st o ob in m :: run_model st' h'
+    | (o, ob) :: h' => let '(S', m) := model_step S o ob in m :: run_model S' h'
     end.
 
-  (* ---- the Spec oracle on the implementation's answers *)
-  Definition spec_query (L : ledger) (q : cq) : bool :=
-    match q with
-    | QUtil p n a => q_queryUtility W L p n a
-    | QUtilsFor p a => q_getUtilitiesFor W L p a
-    | QAllUtils p a => q_getAllUtilities W L p (map snd a)
-    | QAdapter o p n a => q_queryMultiAdapter W call16 L [o] p n a
-    | QMulti os p n a => q_queryMultiAdapter W call16 L os p n a
-    | QGetAdapters os p a => q_getAdapters W call16 L os p a
-    | QSubscribers os p r c => q_subscribers W call16 L os p r c
-    | QHandle os c => q_handle W L os c
+  (* ---- the Spec oracle on the implementation's answers: one ledger per object and the current
+     __bases__; the chain of an object is the C3 order of the __bases__ graph (RegSys.fresh_ro) *)
+  Definition lsys := (list ledger * list (list nat))%type.
+  Definition lsys_init : lsys := ([lempty], [[]]).
+  Definition ledger_at (S : lsys) (r : nat) : ledger := nth r (fst S) lempty.
+  Definition lchain (S : lsys) (r : nat) : list ledger :=
+    map (ledger_at S) (fresh_ro (map (fun bs => mkRS empty_reg empty_caches bs [] [] [] [] Push) (snd S)) r).
+
+  Definition lsys_step (S : lsys) (o : sop) : lsys :=
+    match o with
+    | SNew bs => (fst S ++ [lempty], snd S ++ [bs])
+    | SSetBases r bs => (fst S, set_nth (snd S) r bs)
+    | SOp r o' => (set_nth (fst S) r (o_ledger (spec_step (ledger_at S r) o')),
+                   match o' with Reinit => set_nth (snd S) r [] | _ => snd S end)
+    | STamper _ _ | SRebuild _ => S          (* no registration is added or removed *)
     end.
 
-  Definition spec_step_ok (tolF9 tolF11 : bool) (L : ledger) (o : cop) (ob : sobs) : bool :=
-    let x := spec_step L o in
-    let L' := o_ledger x in
-    negb (s_exc ob) && ret_eqb (s_ret ob) (o_ret x)
-    && events_ok_tolerant tolF9 tolF11 L o (s_events ob)
-    && llnat_eq (canon (s_lu ob)) (canon (map rec_u (l_u L')))
-    && llnat_eq (canon (s_la ob)) (canon (map rec_a (l_a L')))
-    && llnat_eq (canon (s_ls ob)) (canon (map rec_s (l_s L')))
-    && llnat_eq (canon (s_lh ob)) (canon (map rec_h (l_h L')))
-    && q_probe L' (s_probe ob)
-    && forallb (spec_query L') (s_queries ob).
-
-  Fixpoint run_spec (tolF9 tolF11 : bool) (L : ledger) (h : list (cop * sobs)) : bool :=
-    match h with
-    | [] => true
-    | (o, ob) :: h' => spec_step_ok tolF9 tolF11 L o ob && run_spec tolF9 tolF11 (o_ledger (spec_step L o)) h'
+  Definition spec_query (tolF13 : bool) (S : lsys) (rq : nat * cq) : bool :=
+    let Ls := lchain S (fst rq) in
+    match snd rq with
+    | QUtil p n a => q_queryUtility W Ls p n a
+    | QUtilsFor p a => q_getUtilitiesFor W Ls p a
+    | QAllUtils p a => q_getAllUtilities W tolF13 Ls p a
+    | QAdapter o p n a => q_queryMultiAdapter W call16 Ls [o] p n a
+    | QMulti os p n a => q_queryMultiAdapter W call16 Ls os p n a
+    | QGetAdapters os p a => q_getAdapters W call16 Ls os p a
+    | QSubscribers os p r c => q_subscribers W call16 Ls os p r c
+    | QHandle os c => q_handle W Ls os c
     end.
-  (* diagnostics: which conjuncts of [spec_step_ok] hold at a step *)
-  Definition spec_step_diag (L : ledger) (o : cop) (ob : sobs) : list bool :=
-    let x := spec_step L o in
-    let L' := o_ledger x in
-    [negb (s_exc ob); ret_eqb (s_ret ob) (o_ret x); events_ok_tolerant false false L o (s_events ob);
+
+  (* return value and events the property demands of a step *)
+  Definition step_ret_events_ok (tolF9 tolF11 : bool) (S : lsys) (o : sop) (ob : sobs) : bool :=
+    match o with
+    | SNew _ | SSetBases _ _ => ret_eqb (s_ret ob) RNone && match s_events ob with [] => true | _ => false end
+    | SOp r o' => ret_eqb (s_ret ob) (o_ret (spec_step (ledger_at S r) o'))
+                  && events_ok_tolerant tolF9 tolF11 (ledger_at S r) o' (s_events ob)
+    | STamper _ _ => ret_eqb (s_ret ob) RNone && match s_events ob with [] => true | _ => false end
+                     && match s_queries ob with [] => true | _ => false end
+    | SRebuild r =>
+        (* the repair call reports one verdict per listed utility and emits nothing; that it did
+           repair is judged by the probe and the queries of this very step *)
+        match s_ret ob, s_events ob with
+        | RDict (nr, dr, ns, ds), [] =>
+            Nat.eqb (nr + dr) (length (l_u (ledger_at S r))) && Nat.eqb (ns + ds) (length (l_u (ledger_at S r)))
+        | _, _ => false
+        end
+    end.
+
+  Definition spec_step_diag (tolF9 tolF11 tolF13 : bool) (S : lsys) (o : sop) (ob : sobs) : list bool :=
+    let S' := lsys_step S o in
+    let L' := ledger_at S' (s_on ob) in
+    [negb (s_exc ob) && on_ok (length (fst S)) o ob; step_ret_events_ok tolF9 tolF11 S o ob;
      llnat_eq (canon (s_lu ob)) (canon (map rec_u (l_u L')));
      llnat_eq (canon (s_la ob)) (canon (map rec_a (l_a L')));
      llnat_eq (canon (s_ls ob)) (canon (map rec_s (l_s L')));
      llnat_eq (canon (s_lh ob)) (canon (map rec_h (l_h L')));
-     q_probe L' (s_probe ob)] ++ map (spec_query L') (s_queries ob).
+     match o with STamper _ _ => true | _ => q_probe L' (s_probe ob) end]
+    ++ map (spec_query tolF13 S') (s_queries ob).
 
-  Fixpoint first_spec_bad (i : nat) (L : ledger) (h : list (cop * sobs)) : option (nat * list bool) :=
+  Definition spec_step_ok (tolF9 tolF11 tolF13 : bool) (S : lsys) (o : sop) (ob : sobs) : bool :=
+    forallb (fun b => b) (spec_step_diag tolF9 tolF11 tolF13 S o ob).
+
+  Fixpoint run_spec (tolF9 tolF11 tolF13 : bool) (S : lsys) (h : list (sop * sobs)) : bool :=
+    match h with
+    | [] => true
+    | (o, ob) :: h' => spec_step_ok tolF9 tolF11 tolF13 S o ob && run_spec tolF9 tolF11 tolF13 (lsys_step S o) h'
+    end.
+
+  Fixpoint first_spec_bad (i : nat) (S : lsys) (h : list (sop * sobs)) : option (nat * list bool) :=
     match h with
     | [] => None
-    | (o, ob) :: h' => if spec_step_ok false false L o ob then first_spec_bad (S i) (o_ledger (spec_step L o)) h'
-                       else Some (i, spec_step_diag L o ob)
+    | (o, ob) :: h' => if spec_step_ok false false false S o ob then first_spec_bad (Datatypes.S i) (lsys_step S o) h'
+                       else Some (i, spec_step_diag false false false S o ob)
     end.
 End Answers.
 
 Definition model_all (c : case_t) : list sobs :=
-  let '(g, ifs, unh, h) := c in run_model (mk_world g ifs) (hashable_of unh) cinit h.
+  let '(g, ifs, unh, h) := c in run_model (mk_world g ifs) (hashable_of unh) sys_init h.
 
-Fixpoint first_bad (i : nat) (ms : list sobs) (h : list (cop * sobs)) : option (nat * sobs) :=
+Fixpoint first_bad (i : nat) (ms : list sobs) (h : list (sop * sobs)) : option (nat * sobs) :=
   match ms, h with
   | m :: ms', (_, ob) :: h' => if sobs_agree m ob then first_bad (S i) ms' h' else Some (i, m)
   | _, _ => None
@@ -217,12 +243,12 @@ Definition model_out (c : case_t) : option (nat * sobs) :=
 Definition check_model (c : case_t) : bool :=
   match model_out c with None => true | Some _ => false end.
 
-Definition check_spec_tol (tolF9 tolF11 : bool) (c : case_t) : bool :=
-  let '(g, ifs, _, h) := c in run_spec (mk_world g ifs) tolF9 tolF11 lempty h.
+Definition check_spec_tol (tolF9 tolF11 tolF13 : bool) (c : case_t) : bool :=
+  let '(g, ifs, _, h) := c in run_spec (mk_world g ifs) tolF9 tolF11 tolF13 lsys_init h.
 
-Definition check_spec (c : case_t) : bool := check_spec_tol false false c.
+Definition check_spec (c : case_t) : bool := check_spec_tol false false false c.
 
 (* diagnostics: first step violating the Spec, with the truth value of each conjunct
-   (no-exception, return, events, four listings, probe, then one per query) *)
+   (no-exception/right object, return+events, four listings, probe, then one per query) *)
 Definition spec_out (c : case_t) : option (nat * list bool) :=
-  let '(g, ifs, _, h) := c in first_spec_bad (mk_world g ifs) 0 lempty h.
+  let '(g, ifs, _, h) := c in first_spec_bad (mk_world g ifs) 0 lsys_init h.
